@@ -178,13 +178,8 @@ def can_harness_source(schema: Schema, structs: list) -> str:
     return "\n".join(out) + "\n"
 
 
-def dyn_harness_source(schema: Schema) -> str:
-    """TU for the run-time (reflection-loaded) codec against the static one, both through their JSON entry points:
-    dyn_load(bin, n) -> DynamicSchema*; {sta,dyn}_enc(.., args, out) -> nbytes | -1; {sta,dyn}_dec(.., in, n, area) -> area bytes | -1.
-    The json values are built from / dumped to the flat areas of marshal(); enumerators travel as numbers in the areas and
-    are spelled as names towards the dynamic schema (the representational difference the property allows)."""
-    out = _prelude(['#include "dynamic.h"'])
-    out.append('using json = nlohmann::json;')
+def _json_builders(schema: Schema, out: list):
+    """Appends jb<k>(Rd&, bool dyn) -> json / jd<k>(const json&, Wr&, bool dyn) for every type asked for; returns gen(t)."""
     n = [0]
     done = {}
 
@@ -200,6 +195,9 @@ def dyn_harness_source(schema: Schema) -> str:
             c = f"std::{'u' if k == 'u' else ''}int{carrier(t[1])}_t"
             bb = f"return json(r.get<{c}>());"
             dd = f"w.put<{c}>(j.get<{c}>());"
+            if k == "i":
+                # a signed field must not come back as an unsigned JSON number beyond int64 (-24 printed as 18446744073709551592)
+                dd += " w.put<unsigned char>((unsigned char)(j.is_number_unsigned() ? (j.get<std::uint64_t>() >> 63) : 0));"
         elif k in ("f32", "f64"):
             c = "float" if k == "f32" else "double"
             bb = f"return json(r.get<{c}>());"
@@ -237,6 +235,17 @@ def dyn_harness_source(schema: Schema) -> str:
         out.append(f"static void {d}(const json& j, Wr& w, bool dyn) {{ {dd} }}")
         return done[key]
 
+    return gen
+
+
+def dyn_harness_source(schema: Schema) -> str:
+    """TU for the run-time (reflection-loaded) codec against the static one, both through their JSON entry points:
+    dyn_load(bin, n) -> DynamicSchema*; {sta,dyn}_enc(.., args, out) -> nbytes | -1; {sta,dyn}_dec(.., in, n, area) -> area bytes | -1.
+    The json values are built from / dumped to the flat areas of marshal(); enumerators travel as numbers in the areas and
+    are spelled as names towards the dynamic schema (the representational difference the property allows)."""
+    out = _prelude(['#include "dynamic.h"'])
+    out.append('using json = nlohmann::json;')
+    gen = _json_builders(schema, out)
     top = schema.top
     b, d = gen(("struct", top))
     out.append('extern "C" void* dyn_load(const char* bin, unsigned long n) { auto* s = new fcp::dynamic::DynamicSchema(); '
@@ -252,6 +261,33 @@ def dyn_harness_source(schema: Schema) -> str:
     out.append(f'extern "C" long sta_dec(const unsigned char* in, unsigned long n, unsigned char* area) {{ fcp::StaticSchema s; '
                f'auto v = s.DecodeJson("{top}", std::vector<std::uint8_t>(in, in + n)); '
                f'if (!v.has_value()) return -1; Wr w{{area}}; {d}(*v, w, false); return (long)(w.p - area); }}')
+    return "\n".join(out) + "\n"
+
+
+def can_dyn_harness_source(schema: Schema, structs: list) -> str:
+    """TU for the static against the reflection-loaded CAN wrapper, real JSON on both sides: dyn_load; xcan_enc(sp|0, which, args,
+    frame15) -> 0/1; xcan_dec(sp|0, frame15, name_out, area, &area_n) -> -1 | name length (the value dumped per decoded name)."""
+    out = _prelude(['#include <memory>', '#include "dynamic.h"', '#include "can.h"', '#include "can_static_schema.h"',
+                    '#include "can_dynamic_schema.h"'])
+    out.append('using json = nlohmann::json;')
+    gen = _json_builders(schema, out)
+    fns = [gen(("struct", sn)) for sn in structs]
+    out.append('extern "C" void* dyn_load(const char* bin, unsigned long n) { auto* s = new fcp::dynamic::DynamicSchema(); '
+               's->LoadBinarySchema(std::string(bin, n)); return s; }')
+    out.append('static fcp::can::Can mk_can(void* sp) { if (sp) return fcp::can::Can{std::make_shared<fcp::can::CanDynamicSchema>('
+               'fcp::can::CanDynamicSchema(*(fcp::dynamic::DynamicSchema*)sp))}; '
+               'return fcp::can::Can{std::make_shared<fcp::can::CanStaticSchema>(fcp::can::CanStaticSchema{})}; }')
+    cases = " ".join(f'case {i}: name = "{sn}"; j = {fns[i][0]}(r, dyn); break;' for i, sn in enumerate(structs))
+    out.append('extern "C" int xcan_enc(void* sp, int which, const unsigned char* args, unsigned char* out) { Rd r{args}; bool dyn = sp != 0; '
+               'json j; const char* name = ""; switch (which) { ' + cases + ' } auto s = mk_can(sp); auto f = s.Encode(std::string(name), j); '
+               'if (!f.has_value()) return 0; std::memcpy(out, f->bus.data(), 4); std::memcpy(out + 4, &f->sid, 2); out[6] = f->dlc; '
+               'std::memcpy(out + 7, f->data.data(), 8); return 1; }')
+    dumps = " ".join(f'if (r->first == "{sn}") {fns[i][1]}(r->second, w, dyn);' for i, sn in enumerate(structs))
+    out.append('extern "C" long xcan_dec(void* sp, const unsigned char* in, char* name_out, unsigned char* area, long* area_n) { '
+               'bool dyn = sp != 0; fcp::can::frame_t f; std::memcpy(f.bus.data(), in, 4); std::memcpy(&f.sid, in + 4, 2); f.dlc = in[6]; '
+               'std::memcpy(f.data.data(), in + 7, 8); auto s = mk_can(sp); auto r = s.Decode(f); if (!r.has_value()) return -1; '
+               'for (unsigned long i = 0; i < r->first.size(); i++) name_out[i] = r->first[i]; Wr w{area}; ' + dumps +
+               ' *area_n = (long)(w.p - area); return (long)r->first.size(); }')
     return "\n".join(out) + "\n"
 
 
